@@ -60,6 +60,17 @@ def scan_forbidden(files):
     return bad
 
 
+def prune_target(target, keep=3):
+    """cargo kani leaves one output directory (goto binaries, several hundred MB to GB) per distinct compilation of the crate;
+    only the newest few are worth keeping as a cache (disk space is limited).  Runs under the lock."""
+    import glob
+    import shutil
+    for d in glob.glob(os.path.join(target, 'kani', '*', 'debug', 'build', 'rrss')):
+        subs = sorted((os.path.join(d, x) for x in os.listdir(d)), key=lambda x: os.path.getmtime(x), reverse=True)
+        for old in subs[keep:]:
+            shutil.rmtree(old, ignore_errors=True)
+
+
 def prepare(tier):
     """returns (workdir, target_dir, lock_handle, files)"""
     os.makedirs(SCRATCH, exist_ok=True)
@@ -68,6 +79,7 @@ def prepare(tier):
     work = os.path.join(SCRATCH, 'kani-work')
     target = os.path.join(SCRATCH, 'kani-target')
     os.makedirs(work, exist_ok=True)
+    prune_target(target)
     subprocess.run(['rsync', '-a', '--delete', '--exclude', '/target', '--exclude', '/.git',
                     REPO.rstrip('/') + '/', work + '/'], check=True)
     files = harness_files(tier)
@@ -215,6 +227,9 @@ def playback(tier, harness_id):
             if f is not None:
                 # the harness function may live in a nested module: add `use` of everything reachable
                 pb_src = open(f['gen_path']).read()
+                # harness functions (zero-argument, unit-returning fns, also inside macro bodies) must be visible to the
+                # generated test module
+                pb_src = re.sub(r'(\n[ \t]*)fn (\w+|\$\w+)\(\) \{', r'\1pub(crate) fn \2() {', pb_src)
                 inner = '::'.join(leaf[leaf.index(modname) + 1:-1])
                 tests_mod = '\n#[cfg(test)]\nmod kani_playback_tests {\n    use super::%s*;\n%s\n}\n' % (
                     (inner + '::') if inner else '', '\n'.join(fail_tests[:1]))
